@@ -260,7 +260,9 @@ pub fn run_history(id: usize, env: &Env, init_a: &Tree, init_b: &Tree, ops: &[Op
                 op_strs.push(format!("{}{}:{}:{}", if *pm { "M" } else { "W" }, if *side { "A" } else { "B" }, hex(p.as_bytes()), hex(c)));
             }
             Op::Delete(side, p) => {
-                let _ = std::fs::remove_file(format!("{}/{}", if *side { &env.a } else { &env.b }, p));
+                let full = format!("{}/{}", if *side { &env.a } else { &env.b }, p);
+                // deleting a name that is an (empty) directory by now removes that directory: `d` after `d/h`, `d/k` are gone
+                if std::fs::remove_file(&full).is_err() { let _ = std::fs::remove_dir(&full); }
                 op_strs.push(format!("D{}:{}", if *side { "A" } else { "B" }, hex(p.as_bytes())));
             }
             Op::Fault(kind) | Op::FaultSwapped(kind) => {
@@ -643,7 +645,31 @@ fn gen_history(r: &mut Rng, pool: &[Vec<u8>], paths: &[&str]) -> (Tree, Tree, Ve
     }
     let class: &'static str;
     let mut ops = vec![];
-    match r.below(11) {
+    match r.below(13) {
+        12 => {
+            // a synced FILE is replaced by a directory of its name (its delete is mirrored, the file beneath is propagated),
+            // then the directory goes away on both sides and the file comes back on ONE side with its old bytes: it is a new
+            // file (the last completed run ended with no file of that name anywhere), so it is propagated, not deleted
+            class = "directed:file-to-directory-and-back";
+            a.clear();
+            b.clear();
+            let v1 = r.pick(&pool[1..]).clone();
+            let s1 = r.chance(1, 2);
+            ops = vec![Op::Write(s1, "d".into(), v1.clone(), false), Op::Run, Op::Delete(s1, "d".into()), Op::Write(s1, "d/h".into(), pool[2].clone(), false), Op::Run,
+                       Op::Delete(true, "d/h".into()), Op::Delete(false, "d/h".into()), Op::Delete(true, "d".into()), Op::Delete(false, "d".into()),
+                       Op::Write(r.chance(1, 2), "d".into(), v1, false), Op::Run, Op::Run];
+        }
+        11 => {
+            // a synced directory is replaced by a FILE of its name on one side, and the pair's record is then lost / damaged /
+            // foreign: whatever the run does (it refuses to put the file over the directory), the files under the directory
+            // on the other side stay - a run without a trusted record removes nothing
+            class = "directed:file-vs-directory-then-fault";
+            a.clear();
+            b.clear();
+            let side = r.chance(1, 2);
+            ops = vec![Op::Write(true, "d/h".into(), pool[1].clone(), false), Op::Write(true, "d/k".into(), pool[2].clone(), false), Op::Run,
+                       Op::Write(side, "d".into(), pool[3].clone(), false), Op::Fault(r.below(8) as u8), Op::Run, Op::Run];
+        }
         9 => {
             // both orders in use, the record of one order goes stale, then the record of the order in use is damaged: the
             // run must fall back to no-base mode (no delete, nothing lost), whatever the other order's record says
